@@ -184,6 +184,140 @@ class C08Proj(ControlProjector):
         return None
 
 
+import re as _re
+
+
+def px_parse(line):
+    """t=<n> ev=[a;b] parked=[x;y] -> (t, [events], [parked])"""
+    m = _re.match(r't=(\d+) ev=\[(.*?)\] parked=\[(.*)\]$', line)
+    if not m:
+        return None
+    ev = [e for e in m.group(2).split(';') if e]
+    pk = [e for e in m.group(3).split(';') if e]
+    return m.group(1), ev, pk
+
+
+def tgt_gen(name):
+    """s1-t2-a:80 -> s1-t2 (which deploy generation a target belongs to)"""
+    return _re.sub(r'-[a-z]:80$', '', name)
+
+
+class ProxyProjector:
+    """observations of the proxy engine reduced to what a property is about; `parked` (which
+    threads sit at which hook) is always kept: it is the schedule's own state"""
+    keep_time = False
+
+    def ev(self, e):
+        return e
+
+    def interesting(self, kind, op, evs):
+        return False
+
+    def step(self, kind, op, a, b):
+        pa, pb = px_parse(a), px_parse(b)
+        if pa is None or pb is None:
+            return a, b, False
+        ea = sorted(x for x in (self.ev(e) for e in pa[1]) if x)
+        eb = sorted(x for x in (self.ev(e) for e in pb[1]) if x)
+        ta = pa[0] if self.keep_time and ea else ''
+        tb = pb[0] if self.keep_time and eb else ''
+        return (ta, ea, pa[2]), (tb, eb, pb[2]), self.interesting(kind, op, pb[1])
+
+
+def ev_status(e):
+    m = _re.match(r'(done r\d+ status=\d+)', e)
+    return m.group(1) if m else None
+
+
+def ev_gen(e):
+    m = _re.match(r'(done r\d+ status=\d+) by=(\S+)', e)
+    if m:
+        return m.group(1) + ' by=' + tgt_gen(m.group(2))
+    m = _re.match(r'got (\S+) (r\d+)', e)
+    if m:
+        return 'got ' + tgt_gen(m.group(1)) + ' ' + m.group(2)
+    return None
+
+
+class C01Proj(ProxyProjector):
+    """which deploy generation's targets receive client requests; results of deploy commands"""
+    def ev(self, e):
+        return ev_gen(e) or (e if e.startswith('cmd ') else None)
+
+    def interesting(self, kind, op, evs):
+        return any('res=unhealthy' in e for e in evs) or (kind == 'req' and any(e.startswith('got') for e in evs))
+
+
+class C02Proj(ProxyProjector):
+    """the status every request ends with (and the generation that served it)"""
+    def ev(self, e):
+        return ev_gen(e)
+
+    def interesting(self, kind, op, evs):
+        return any(e.startswith('done') for e in evs)
+
+
+class C03Proj(ProxyProjector):
+    """when commands return, what is cut (504), what targets receive afterwards"""
+    keep_time = True
+
+    def ev(self, e):
+        return ev_gen(e) or (e if e.startswith('cmd ') else None)
+
+    def interesting(self, kind, op, evs):
+        return any('status=504' in e for e in evs) or any(e.startswith('cmd') for e in evs)
+
+
+class C07Proj(ProxyProjector):
+    """how requests end and when (held / released / timed out), gate commands"""
+    keep_time = True
+
+    def ev(self, e):
+        return ev_gen(e) or (e if e.startswith('cmd ') else None)
+
+    def interesting(self, kind, op, evs):
+        return kind in ('resume', 'stop', 'advance') and any(e.startswith('done') for e in evs)
+
+
+class C09Proj(ProxyProjector):
+    """exactly which target serves each request, and every probe"""
+    def ev(self, e):
+        return e if (e.startswith('done') or e.startswith('got') or e.startswith('probe')) else None
+
+    def interesting(self, kind, op, evs):
+        return any(e.startswith('done') and 'by=-' not in e for e in evs)
+
+
+class C17Proj(ProxyProjector):
+    """when each command returns (virtual clock) and which targets are still probed"""
+    keep_time = True
+
+    def ev(self, e):
+        return e if (e.startswith('cmd ') or e.startswith('probe')) else None
+
+    def interesting(self, kind, op, evs):
+        return any(e.startswith('cmd') for e in evs)
+
+
+def proxy(projector, n_quick=160, n_thorough=20000):
+    return dict(engine='proxy', n_quick=n_quick, n_thorough=n_thorough, projector=projector, quick_shards=4)
+
+
+RULE_PROXY = ("engine proxy: schedules against a real Router in a synctest bubble (virtual clock, in-memory network, scripted targets): an "
+              "initial deploy, then 12-30 lines drawn from: client request (optionally cookie-bearing or health-check), advance the clock "
+              "(50 ms .. 2.5 s, every duration with its own offset so timers never coincide), deploy / rollout deploy of fresh targets "
+              "(some failing or hanging their probes, some holding requests), respond to a held request, arm/disarm/release one of 11 "
+              "hook points (route lookup, gate, pick, probe update, deploy steps, drain deadline, pause/stop gate), pause, stop, resume, "
+              "rollout set/stop, remove, change of a target's probe behaviour; finally everything is released and 5 s pass. After every "
+              "line both sides print the virtual time, the sorted events (probe, request reached target, request done with status and "
+              "target, command returned) and the parked threads. ")
+
+PROXY_ASSUME = ["target I/O failure kinds are abstracted to three probe outcomes (2xx, non-2xx, no answer within the probe timeout)",
+                "two timers never fire at the same virtual instant (the generator gives every duration its own offset); several requests "
+                "woken by one resume/stop are not generated (their claim order is scheduler-dependent)",
+                "hooks sit between atomic regions of the code (never inside a critical section)"]
+
+
 def control(projector, n_quick=160, n_thorough=6000):
     return dict(engine='control', n_quick=n_quick, n_thorough=n_thorough, projector=projector)
 
@@ -199,6 +333,23 @@ def engine(name, projector, n_quick, n_thorough, **kw):
 
 
 PROPS = {
+    'C01': dict(engines=[proxy(C01Proj)], assumptions=PROXY_ASSUME,
+                rule=RULE_PROXY + "Compared for C01: deploy results and which deploy generation's targets receive client requests. "
+                     "Non-trivial = a deploy fails its health wait, or a request reaches a target."),
+    'C02': dict(engines=[proxy(C02Proj)], assumptions=PROXY_ASSUME,
+                rule=RULE_PROXY + "Compared for C02: the status every request ends with and the generation that served it. Non-trivial = a request completes."),
+    'C03': dict(engines=[proxy(C03Proj)], assumptions=PROXY_ASSUME,
+                rule=RULE_PROXY + "Compared for C03: virtual time and result of every command return, 504 cut-offs, which generation receives requests. "
+                     "Non-trivial = a command returns or a request is cut with 504."),
+    'C07': dict(engines=[proxy(C07Proj)], assumptions=PROXY_ASSUME,
+                rule=RULE_PROXY + "Compared for C07: how and when (virtual ns) each request ends, gate command results. Non-trivial = a request "
+                     "ends on resume, stop or a timer."),
+    'C09': dict(engines=[proxy(C09Proj)], assumptions=PROXY_ASSUME,
+                rule=RULE_PROXY + "Compared for C09: exactly which target serves each request and every probe sent. Non-trivial = a request is served by a target."),
+    'C17': dict(engines=[proxy(C17Proj)], assumptions=PROXY_ASSUME + ["real elapsed time (scheduler latency, file I/O, lock contention) is outside the "
+                "model: the virtual clock measures only what the code waits for"],
+                rule=RULE_PROXY + "Compared for C17: the virtual time at which every command returns and every probe sent (so probes after "
+                     "remove / failed deploy / redeploy show). Non-trivial = a command returns."),
     'C12': dict(
         engines=[engine('snapshot', lambda: AllProj(lambda k, op, b: (k == 'crashscan' and 'renamed=' in b) or k == 'overlap'), 24, 600)],
         rule="engine snapshot (real clock): after 1-3 commands, `crashscan`: a random command is run while the bytes at the state path are "
